@@ -12,6 +12,8 @@ def ctor_sites(cx, adt_suffix):
     """Sites that build a value of the ADT with a struct literal."""
     out = []
     for k, f in cx.facts.fns.items():
+        if f.impl_trait == "core::clone::Clone":
+            continue  # a derived clone copies an existing value, it does not initialise one
         a = cx.prog.an[k]
         for bi in sorted(a.reach):
             for si, st in enumerate(f.body.blocks[bi]["stmts"]):
